@@ -8,7 +8,7 @@ PID = "C12"
 MODULES = ["Prelude", "C12_Model", "C12_Spec", "C12_Check"]
 PROPS_MODULE = "C12_Properties"
 THEOREMS = ["C12_answer_provenance", "C12_source_meaning", "C12_unavailable_denies", "C12_no_shared_entry",
-            "C12_own_cluster", "C12_other_clusters_not_asked", "C12_history"]
+            "C12_own_cluster", "C12_other_clusters_not_asked", "C12_overlap_commutes", "C12_history"]
 EVAL = "C12_Check.eval"
 CLAUSES = ["agree", "own_cluster", "unavailable_denies", "fresh_answer", "cached_provenance"]
 RULE = ("distinct (configuration, scripts, op list) histories in which the SAME token or the SAME user+attributes is "
@@ -25,7 +25,9 @@ TRUSTED_BASE = [
     "(WithExponentialBackoff: at most 1+3 calls for tokens because of the 2 s deadline, 1+4 for SAR)",
 ]
 ASSUMPTIONS = [
-    "requests are processed one at a time (the property quantifies over request sequences, not interleavings)",
+    "requests are processed one at a time, except pairs of overlapping requests for hosts of DIFFERENT clusters (first "
+    "request's review held in flight while the second runs); C12_overlap_commutes shows such a pair is equivalent to "
+    "either sequential order in the model; overlaps within one cluster (legitimate singleflight sharing) are not generated",
     "the caches' clock is non-decreasing along a history in the correspondence run (the theorems hold for any clock values)",
     "host names, tokens and attribute strings are printable ASCII in the correspondence run (strings.ToLower / json.Marshal "
     "are modelled on ASCII); audiences are not used",
@@ -82,6 +84,14 @@ def base_cfg(reg, neps, sttl=100, fttl=10, attl=100, dttl=10):
 
 def authn(h, tok, now, hvia="direct"):
     return {"op": "authn", "host": h, "hvia": hvia, "tok": tok, "now": now}
+
+
+def overlapt(ha, hb, tok, now):
+    return {"op": "overlapt", "host": ha, "host2": hb, "hvia": "direct", "tok": tok, "now": now}
+
+
+def overlaps(ha, hb, a, now, avia=""):
+    return {"op": "overlaps", "host": ha, "host2": hb, "hvia": "direct", "avia": avia, "attrs": a, "now": now}
 
 
 def authz(h, a, now, hvia="direct", avia=""):
@@ -189,6 +199,31 @@ def corpus():
     cs.append({"cfg": base_cfg(reg, neps), "via": "token", "tscript": {},
                "sscript": {"c2": [{"k": "fail", "tag": i, "retry": True} for i in range(1, 8)], "c1": [sstatus("c1", True)]},
                "ops": up + [authz("c2", ATTRS[0], 0), authz("c1", ATTRS[0], 1)]})
+    # 9. OVERLAPPING requests: the same token / the same attributes for a host of another cluster while the first
+    #    cluster's review is still in flight; then later sequential requests to the second host (a wrongly shared
+    #    answer would have been stored in its cache)
+    long = dict(sttl=1000, fttl=1000, attl=1000, dttl=1000)
+    cs.append({"cfg": base_cfg(reg, neps, **long), "via": "token",
+               "tscript": {"c1": [tauth("c1")] * 3, "c2": [{"k": "unauth"}, tauth("c2", "mallory")]},
+               "sscript": {"c1": [sstatus("c1", True)] * 3, "c2": [sstatus("c2", False, True), sstatus("c2", False)]},
+               "ops": up + [overlaps("c1", "c2", IMP(), 0), authz("c2", IMP(), 1), authz("c1", IMP(), 1),
+                            overlapt("c1", "c2", "t", 2), authn("c2", "t", 3), authn("c1", "t", 3),
+                            overlaps("c2", "alias1", ATTRS[0], 4, ), authz("alias1", ATTRS[0], 5), authz("c2", ATTRS[0], 5)]})
+    # the deny direction, through the impersonation filter, and through the request chain
+    cs.append({"cfg": base_cfg(reg, neps, **long), "via": "request",
+               "tscript": {"c1": [{"k": "unauth"}, tauth("c1")], "c2": [tauth("c2", "root")] * 2},
+               "sscript": {"c1": [sstatus("c1", False, True)] * 2, "c2": [sstatus("c2", True)] * 2},
+               "ops": up + [overlaps("c1", "c2", IMP(), 0, "impersonate"), authz("c2", IMP(), 1, avia="impersonate"),
+                            overlapt("c1", "c2", "t", 2), authn("c2", "t", 3), authn("c1", "t", 3)]})
+    # first request needs no review (cache hit / refused), second unavailable, short TTLs, an error held in flight
+    cs.append({"cfg": base_cfg(reg, neps), "via": "token",
+               "tscript": {"c1": [tauth("c1"), {"k": "fail", "tag": 3}], "c2": [tauth("c2")] * 3},
+               "sscript": {"c1": [sstatus("c1", True), {"k": "fail", "tag": 4}], "c2": [sstatus("c2", False)] * 3},
+               "ops": up + [authn("c1", "t", 0), overlapt("c1", "c2", "t", 1), overlapt("nowhere", "c2", "t", 2),
+                            authz("c1", ATTRS[0], 0), overlaps("c1", "c2", ATTRS[0], 1), overlaps(None, "c2", ATTRS[0], 2),
+                            disabled("c2", 0), overlapt("alias1", "c2", "t2", 3), overlaps("alias1", "c2", ATTRS[2], 3),
+                            disabled("c2", 0, False), overlapt("c1", "c2", "t3", 200), overlaps("c1", "c2", ATTRS[3], 200),
+                            authn("c2", "t3", 201), authz("c2", ATTRS[3], 201)]})
     return cs
 
 
@@ -248,6 +283,7 @@ def gen_case(rng, tier):
         for i in range(neps[c]):
             if rng.chance(9, 10):
                 ops.append(healthy(c, i))
+    with_overlap = rng.chance(1, 8)
     now = 0
     steps = [0, 0, 1, 1, 1, 1, 2, 2, 3, 4, 5, 6, 19, 20, 21] + ([999, 1000, 1001] if rng.chance(1, 4) else [])
     for _ in range(nops):
@@ -266,7 +302,18 @@ def gen_case(rng, tier):
             hvia = "direct"
             if h is not None and h == h.lower() and h != "" and rng.chance(1, 3):
                 hvia = rng.choice(["factory", "factoryport"])
-            if rng.chance(1, 2):
+            h2 = None
+            if with_overlap and rng.chance(1, 4):
+                # a second host of ANOTHER cluster (or of none) for an overlapping request with the same key
+                others = [x for x in hosts + ["nowhere"] if _cluster_of(cfg, x) != _cluster_of(cfg, h) or _cluster_of(cfg, x) is None]
+                h2 = rng.choice(others) if others else None
+            if h2 is not None:
+                if rng.chance(1, 2):
+                    ops.append(overlapt(h, h2, rng.choice(toks), now))
+                else:
+                    a = rng.choice(attrs)
+                    ops.append(overlaps(h, h2, a, now, "impersonate" if a == IMP() and h is not None and rng.chance(1, 2) else ""))
+            elif rng.chance(1, 2):
                 ops.append(authn(h, rng.choice(toks), now, hvia))
             else:
                 a = rng.choice(attrs)
@@ -313,7 +360,7 @@ def gen_boundary(rng):
 
 
 def generate(rng, tier, scale=1):
-    n, nb = (260, 25) if tier == "quick" else (3000, 200)
+    n, nb = (225, 20) if tier == "quick" else (3000, 200)
     return [gen_case(rng, tier) for _ in range(n * scale)] + [gen_boundary(rng) for _ in range(nb * scale)]
 
 
@@ -403,6 +450,31 @@ def coq_cfg(cfg):
              cZ(cfg["sttl"]), cZ(cfg["fttl"]), cZ(cfg["attl"]), cZ(cfg["dttl"]), TRETRIES, SRETRIES))
 
 
+# a step on which model (ENoInfo) and observation (EOther) disagree while every spec clause holds
+BAD_STEP = '(One (OAuthn None "" 0), R1 (OutT {| t_user := None; t_ok := false; t_err := EOther |} []))'
+
+
+def split_overlap(o):
+    """overlapt / overlaps -> the two plain request ops (A = held in flight, B = ran meanwhile)"""
+    if o["op"] == "overlapt":
+        return (authn(o["host"], o["tok"], o["now"], o.get("hvia", "direct")),
+                authn(o["host2"], o["tok"], o["now"], o.get("hvia", "direct")))
+    return (authz(o["host"], o["attrs"], o["now"], o.get("hvia", "direct"), o.get("avia", "")),
+            authz(o["host2"], o["attrs"], o["now"], o.get("hvia", "direct"), o.get("avia", "")))
+
+
+def flat(case, steps):
+    """(plain op, its observation) pairs, overlaps expanded"""
+    for o, s in zip(case["ops"], steps):
+        if o["op"] in ("overlapt", "overlaps"):
+            if s.get("a") and s.get("b"):
+                oa, ob = split_overlap(o)
+                yield oa, s["a"]
+                yield ob, s["b"]
+        else:
+            yield o, s
+
+
 def coq_case(case, obs):
     cfg = coq_cfg(case["cfg"])
     ts = clist([cpair(cstr(c), clist([coq_tans(a) for a in l])) for c, l in sorted(case["tscript"].items())])
@@ -410,8 +482,7 @@ def coq_case(case, obs):
     steps = obs.get("steps") if isinstance(obs, dict) else None
     if steps is None or len(steps) != len(case["ops"]):
         # panic / truncated history: a one-step trace on which model and observation visibly disagree
-        bad = '[(OAuthn None "" 0, OutT {| t_user := None; t_ok := false; t_err := EOther |} [])]'
-        return "(Case %s %s %s %s)" % (cfg, ts, ss, bad)
+        return "(Case %s %s %s [%s])" % (cfg, ts, ss, BAD_STEP)
     names, lets = {}, ""
     for o in case["ops"]:
         if "attrs" in o and o["attrs"] is not None:
@@ -419,8 +490,21 @@ def coq_case(case, obs):
             if k not in names:
                 names[k] = "a%d" % len(names)
                 lets += "let %s := %s in " % (names[k], coq_attrs(o["attrs"]))
-    tr = clist([cpair(coq_op(o, names), coq_out(s)) for o, s in zip(case["ops"], steps)])
-    return "(%sCase %s %s %s %s)" % (lets, cfg, ts, ss, tr)
+    items = []
+    for o, s in zip(case["ops"], steps):
+        if o["op"] in ("overlapt", "overlaps"):
+            if s.get("kind") != "P" or not s.get("a") or not s.get("b"):
+                items.append(BAD_STEP)
+                continue
+            oa, ob = split_overlap(o)
+            items.append("(Ovl %s %s, R2 %s %s)" % (coq_op(oa, names), coq_op(ob, names), coq_out(s["a"]), coq_out(s["b"])))
+            if s.get("blocked"):
+                # the second request did not complete on its own while the first one's review was in flight:
+                # never so in the model (requests of different clusters share nothing) -> visible disagreement
+                items.append(BAD_STEP)
+        else:
+            items.append("(One %s, R1 %s)" % (coq_op(o, names), coq_out(s)))
+    return "(%sCase %s %s %s %s)" % (lets, cfg, ts, ss, clist(items))
 
 
 # ------------------------------------------------------------------ evidence helpers
@@ -439,7 +523,7 @@ def nontrivial_key(case, obs):
         return None
     seen = {}
     hit = fresh = False
-    for o, s in zip(case["ops"], steps):
+    for o, s in flat(case, steps):
         if o["op"] not in ("authn", "authz"):
             continue
         c = _cluster_of(case["cfg"], o.get("host"))
@@ -464,6 +548,9 @@ def stats(case, obs):
     if not steps:
         return labs + ["panic"]
     for o, s in zip(case["ops"], steps):
+        if o["op"] in ("overlapt", "overlaps"):
+            labs.append("op:%s%s" % (o["op"], ":blocked" if s.get("blocked") else ""))
+    for o, s in flat(case, steps):
         if o["op"] in ("authn", "authz"):
             if s["calls"]:
                 r = "fresh%d" % len(s["calls"]) if len(s["calls"]) > 1 else "fresh"
